@@ -157,7 +157,7 @@ impl GuiState {
             let intent = self.script[self.pc].clone();
             let needs_idle = matches!(
                 intent,
-                Intent::Go(_) | Intent::UciNewGame | Intent::Position { .. } | Intent::PlayBest | Intent::SetOption { .. } | Intent::SetSpin { .. }
+                Intent::Go(_) | Intent::UciNewGame | Intent::Position { .. } | Intent::PlayBest | Intent::SetOption { .. } | Intent::SetSpin { .. } | Intent::Raw(_)
             );
             if needs_idle {
                 if let Some(o) = &mut self.outstanding {
@@ -202,6 +202,10 @@ impl GuiState {
                 Intent::IsReady => {
                     self.pc += 1;
                     return self.hand_over("isready".to_string(), core);
+                }
+                Intent::Raw(l) => {
+                    self.pc += 1;
+                    return self.hand_over(l, core);
                 }
                 Intent::UciNewGame => {
                     self.pc += 1;
@@ -255,7 +259,15 @@ impl GuiState {
                 }
                 Intent::SetSpin { name, pick } => {
                     self.pc += 1;
-                    if let Some(opt) = self.spin_options.iter().find(|o| o.name == name).cloned() {
+                    // "#k" = the k-th spin option the engine advertised, whatever it is called
+                    let by_index = name.strip_prefix('#').and_then(|k| k.parse::<usize>().ok());
+                    let opt = match by_index {
+                        Some(k) if !self.spin_options.is_empty() => Some(self.spin_options[k % self.spin_options.len()].clone()),
+                        Some(_) => None,
+                        None => self.spin_options.iter().find(|o| o.name == name).cloned(),
+                    };
+                    if let Some(opt) = opt {
+                        let name = opt.name.clone();
                         let v = pick.resolve(opt.min, opt.max, opt.default);
                         self.last_setoption = Some((name.clone(), v.to_string()));
                         probe(&mut self.probes, "setoption_from_advertised_range");
